@@ -566,21 +566,59 @@ def fam_intersection(res, s, v):
         return
     a, b = ('p', 0), ('p', 1)
     bad = False
+    known = [M(a, LO), M(a, HI), M(b, LO), M(b, HI)]
+
+    def lattice(x):
+        """min/max term over the four bounds of the operands, or None"""
+        x = all_conv(x)
+        if x in known:
+            return x
+        mm_ = minmax_call(x)
+        if mm_ is None:
+            return None
+        l, r = lattice(mm_[1][0]), lattice(mm_[1][1])
+        return None if (l is None or r is None) else (mm_[0], l, r)
+
+    def lat_eval(x, val):
+        if x[0] in ('min', 'max') and len(x) == 3 and x not in known:
+            return (min if x[0] == 'min' else max)(lat_eval(x[1], val), lat_eval(x[2], val))
+        return val[x]
     for slot, fld, fn in ((t[2][0], LO, 'max'), (t[2][1], HI, 'min')):
         mm = minmax_call(slot)
-        if mm is None:
-            res.und(R2, 'intersectionOf: %s bound `%s` is not a min/max call' % (fld, show(slot, names)))
-            return
+        if mm is None or not set(all_conv(x) for x in mm[1]) <= set(known):
+            # not the plain two-operand form: a bound of an operand passed through, or a nested min/max of the operands' bounds
+            # (a bound clipped in place and read again).  min/max terms over a total order are equal iff they agree on every
+            # assignment of the values 0..3 to the four bounds
+            lt = lattice(slot)
+            if lt is None:
+                if mm is None:
+                    res.und(R2, 'intersectionOf: %s bound `%s` is not a min/max call' % (fld, show(slot, names)))
+                else:
+                    res.und(R2, 'intersectionOf: operand not recognised in `%s`' % show(slot, names))
+                return
+            want_t = (fn, M(a, fld), M(b, fld))
+            import itertools
+            wit = None
+            for vals in itertools.product(range(4), repeat=4):
+                val = dict(zip(known, vals))
+                if lat_eval(lt, val) != lat_eval(want_t, val):
+                    wit = val
+                    break
+            if wit is None:
+                continue
+            res.bad(R2, 'intersectionOf: %s bound is `%s`, required %s(%s, %s): for %s it is %d, required %d%s' % (
+                fld, show(slot, names), fn, show(M(a, fld), names), show(M(b, fld), names),
+                ', '.join('%s = %d' % (show(k, names), wit[k]) for k in known), lat_eval(lt, wit), lat_eval(want_t, wit),
+                ' (the bound of one operand is returned unclipped)' if lt in known else ''), 'intersection-' + fld)
+            bad = True
+            continue
         got_fn, args = mm
+        args = tuple(all_conv(x) for x in args)
         want = {M(a, fld), M(b, fld)}
         pr = []
         if got_fn != fn:
             pr.append('uses %s where %s is required' % (got_fn, fn))
         if set(args) != want:
-            known = {M(a, LO), M(a, HI), M(b, LO), M(b, HI)}
-            if not set(args) <= known:
-                res.und(R2, 'intersectionOf: operand not recognised in `%s`' % show(slot, names))
-                return
             pr.append('combines %s, required %s' % (' and '.join(show(x, names) for x in args), ' and '.join(sorted(show(x, names) for x in want))))
         if pr:
             res.bad(R2, 'intersectionOf: %s bound `%s` %s' % (fld, show(slot, names), '; '.join(pr)), 'intersection-' + fld)
